@@ -61,6 +61,18 @@ template <typename CharT, typename SizeT>
     return dest;
 }
 
+// Narrow characters are ordered as unsigned char (like the C library), wide
+// characters by value. Never subtracts, so the result can not overflow.
+template <typename CharT>
+[[nodiscard]] constexpr auto cstr_compare_char(CharT lhs, CharT rhs) noexcept -> int
+{
+    if constexpr (sizeof(CharT) == 1) {
+        return static_cast<int>(static_cast<unsigned char>(lhs)) - static_cast<int>(static_cast<unsigned char>(rhs));
+    } else {
+        return static_cast<int>(lhs > rhs) - static_cast<int>(lhs < rhs);
+    }
+}
+
 template <typename CharT>
 [[nodiscard]] constexpr auto strcmp(CharT const* lhs, CharT const* rhs) -> int
 {
@@ -69,7 +81,7 @@ template <typename CharT>
             break;
         }
     }
-    return static_cast<int>(*lhs) - static_cast<int>(*rhs);
+    return cstr_compare_char(*lhs, *rhs);
 }
 
 template <typename CharT, typename SizeT>
@@ -83,7 +95,7 @@ template <typename CharT, typename SizeT>
         u1 = static_cast<CharT>(*lhs++);
         u2 = static_cast<CharT>(*rhs++);
         if (u1 != u2) {
-            return static_cast<int>(u1 - u2);
+            return cstr_compare_char(u1, u2);
         }
         if (u1 == CharT(0)) {
             return 0;
